@@ -155,7 +155,7 @@ struct Planned {
 }
 
 fn plan(b: &Burst) -> Planned {
-    let mut messages = vec![session::request(1, "initialize", session::initialize_params(b.diagnostics)), session::notification("initialized", json!({}))];
+    let mut messages = vec![session::request(1, "initialize", session::initialize_params_variant(b.diagnostics, b.ops.len() + b.writes + b.n_uris)), session::notification("initialized", json!({}))];
     let mut model: Vec<Option<String>> = vec![None; b.n_uris];
     let mut versions: Vec<i64> = vec![1; b.n_uris];
     let mut id = 1i64;
@@ -457,7 +457,7 @@ pub fn run(ctx: &Ctx) -> i32 {
     finish(
         ctx,
         parts,
-        "bursts of 100-800 messages plus, in half of the bursts, 1-3 floods of 40-300 consecutive change notifications on a larger document (didOpen / didChange with 1-2 ranged changes or a full-text change / didClose / hover / $/verif/text / unknown notifications) over 2-5 URIs including pairs that differ only in scheme, authority or suffix, written to the real binary without waiting for answers (1, 3 or 16 writes) while the reader starts after 0-120 ms (back-pressure beyond the channel capacities of 32), with and without the publishDiagnostics capability, each burst under two schedules; oracle: client text model per full URI: every $/verif/text and hover answer reflects exactly the notifications before it in the stream, responses in request order, last diagnostics per open URI = diagnostics of a fresh didOpen of the final text (where the library-level incremental analysis of that document's history equals the fresh one; otherwise, C01's subject, those of an unloaded in-process replay), none without the capability, closed documents answer null, exit status 0; non-trivial = more than 64 messages with more than 20 switches between URIs; distinct = distinct burst; evaluations = server runs",
+        "bursts of 100-800 messages plus, in half of the bursts, 1-3 floods of 40-300 consecutive change notifications on a larger document (didOpen / didChange with 1-2 ranged changes or a full-text change / didClose / hover / $/verif/text / unknown notifications) over 2-5 URIs including pairs that differ only in scheme, authority or suffix, written to the real binary without waiting for answers (1, 3 or 16 writes) while the reader starts after 0-120 ms (back-pressure beyond the channel capacities of 32), with and without the publishDiagnostics capability (each announced in three shapes: alone / nothing, among other textDocument and workspace capabilities, with processId and rootUri), each burst under two schedules; oracle: client text model per full URI: every $/verif/text and hover answer reflects exactly the notifications before it in the stream, responses in request order, last diagnostics per open URI = diagnostics of a fresh didOpen of the final text (where the library-level incremental analysis of that document's history equals the fresh one; otherwise, C01's subject, those of an unloaded in-process replay), none without the capability, closed documents answer null, exit status 0; non-trivial = more than 64 messages with more than 20 switches between URIs; distinct = distinct burst; evaluations = server runs",
         &[
             "the tokio scheduler is not controlled: schedules are sampled (two runs per burst with different reader delays), not enumerated",
             "didChange for a document that is not open must be ignored",
